@@ -191,7 +191,9 @@ def sample_cfg(name: str, rng, tier: str = "quick", small: bool = True) -> dict:
     elif name == "ffsp":
         cfg["gen"] = {"num_stage": rng.randint(1, 3), "num_machine": rng.randint(1, 3),
                       "num_job": rng.randint(2, 5) if not big else rng.randint(6, 12),
-                      "min_time": rng.choice([1, 2]), "max_time": rng.choice([4, 10])}
+                      "min_time": rng.choice([1, 2]), "max_time": rng.choice([4, 10]),
+                      # False is what configs/env/ffsp*.yaml and the multi-stage MatNet policy use
+                      "flatten_stages": rng.random() < 0.5}
     elif name == "smtwtp":
         cfg["gen"] = {"num_job": n}
     elif name == "flp":
